@@ -127,6 +127,7 @@ type Sim struct {
 	obs   []string // observation strings forming the outcome class
 
 	streamsSeen []*Stream
+	dialCancel  [2]context.CancelFunc
 	InvOn       bool // evaluate white-box invariants at quiescent points
 }
 
@@ -221,7 +222,13 @@ func (m *Sim) Dial(i int, c epCfg) (*Association, error) {
 		for _, o := range m.options(i, c) {
 			co = append(co, o.(ClientOption))
 		}
-		a, err = ClientWithOptions(co...)
+		// ClientWithOptions is createClientWithOptionsWithContext(context.Background(), ...);
+		// the harness passes a cancellable context so that "dial cancelled" can be injected.
+		ctx, cancel := context.WithCancel(context.Background())
+		m.mu.Lock()
+		m.dialCancel[i] = cancel
+		m.mu.Unlock()
+		a, err = createClientWithOptionsWithContext(ctx, co...)
 	}
 	m.As[i], m.Err[i] = a, err
 	m.Logf(fmt.Sprintf("dial%d", i), "err=%v", err)
@@ -292,6 +299,7 @@ type Exec struct {
 	Events   []wireEvent
 	Obs      []string
 	Leaked   []string
+	ArmedTimers []int
 	Stuck    []string
 	Elapsed  time.Duration // virtual
 	Internal string        // harness-internal problem (not a property violation)
@@ -347,6 +355,7 @@ func runExec(t *testing.T, sc *Scenario, prefix []int, sigs []string, keepSigs b
 			x.Elapsed = time.Since(start)
 			x.Stuck = m.S.Blocked()
 			x.Leaked = leakedGoroutines()
+			x.ArmedTimers = m.S.StopArmedTimers()
 			x.Hist = m.hist
 			x.Events = m.W.events
 			if sc.Final != nil {
